@@ -15,7 +15,7 @@ L1_NOTE = ('Trusted: the reference semantics (engine/vcommon/src/sem.rs), the fi
 
 add('C01', 'l1', 'Generated well-formed projects are printed from an AST, loaded by the real parser, and every (locale, key, arguments) is evaluated through Locale.strings and compared with a reference rendering of the AST. Sampling of an infinite project space: finds counter-examples, proves nothing.',
     L1_NOTE + 'code generation is observed by the generated-crate tier.')
-add('C02', 'l2', 'Generated packages compiled with load_locales!(); one natively created context per package, switched with set_locale; for every (locale, key, arguments, up to 3 counts) every accessor flavour (t!/tu!/td! views, *_string!, *_display!, the const chain for literal keys) and every scoping route (scope_i18n!, use_i18n_scoped!, scope_locale!, direct and chained) must equal the reference rendering, hence each other. A fifth of the variables carry a formatter: their expected text is fresh ICU4X output computed inside the generated binary by the independent vref crate.',
+add('C02', 'l2', 'Generated packages compiled with load_locales!(); one natively created context per package, switched with set_locale; for every (locale, key, arguments, up to 3 counts) every accessor flavour (t!/tu!/td! views, *_string!, *_display!, the const chain for literal keys) and every scoping route (scope_i18n!, use_i18n_scoped!, scope_locale!, direct and chained) must equal the reference rendering, hence each other. A fifth of the variables carry a formatter: their expected text is fresh ICU4X output computed inside the generated binary by the independent vref crate. Stage 2: the same packages built with the `show_keys_only` feature, where every flavour must show the same text and it must name the key.',
     'Trusted: reference semantics, the decoder of leptos to_html() output (empty text nodes render as one space). Reactive re-rendering is C16.',
     technique='differential property-based testing across accessor flavours on generated crates, with a reference model')
 add('C03', 'l1', 'Exhaustive enumeration of the 4-locale domain (125 inherits maps x 27 presence patterns x 6 value kinds) at parser level plus random projects with 2-6 locales; text per locale and the DefaultedLocales grouping used by the code generator are compared with the model walk along `inherits`.',
